@@ -64,3 +64,13 @@ package ocirequest
 //@   modifies nothing
 //@   requires req != nil && (hasRepo(req.Kind) ==> ociref.IsValidRepository(req.Repo)) &&
 //@            (isUploadKind(req.Kind) ==> req.UploadID != "")
+
+// Construct renders the request and checks it by parsing it back; it panics
+// only for a kind outside the enumeration.
+//@ func (*Request).construct
+//@   requires req != nil && 0 <= req.Kind && req.Kind <= ReqCatalogList
+//@   modifies nothing
+//@ func (*Request).Construct
+//@   requires req != nil && 0 <= req.Kind && req.Kind <= ReqCatalogList
+//@   modifies nothing
+//@   ensures[error-means-empty] result.2 != nil ==> result.0 == "" && result.1 == ""
